@@ -769,13 +769,25 @@ theorem extraCols_some {S : Spec} : ∀ {l : List String},
       obtain ⟨d, hd⟩ := dtLookup_some_of_mem hu
       exact ⟨(f, d) :: r, by simp [extraCols, hc, hd, hr]⟩
 
-/-- **no_request_dependent_failure.**  Once the requested names are declared columns whose dependency
+/- FULL STATEMENT (DESIGN.md §7 C02, not proved in full):
+     no_request_dependent_failure : for every valid request R (distinct declared column names that exist for the
+     catalog kind), cleaned on/off, every subsample selection and a halo_info file that holds the raw columns,
+     `construct … R …` (setup of the fields, allocation, dependency capture, temporaries, the loading loop, the
+     subsample-index bookkeeping and the final rename) returns a table: it never fails.
+   PROVED below (`no_request_dependent_failure_partial` + `setupFields_index_cols`): everything between the
+   allocation and the end of the loading loop, for any combination of columns, and that `_setup_fields` always
+   requests the index / merge columns the bookkeeping reads.  MISSING: that `allocate` succeeds for every valid
+   name after the list surgery of `_setup_fields` (N -> N_total, split, light-cone pruning) and that `finish`
+   (column removal / re-insertion / rename) succeeds given those columns; both are exercised by the correspondence
+   on every run (the model and the real class must accept/reject the same requests). -/
+
+/-- **no_request_dependent_failure_partial.**  Once the requested names are declared columns whose dependency
 chains end inside the table (i.e. the allocation succeeded: the request is *valid*), nothing that follows
 can fail because of *which* columns were or were not requested: the dependency capture terminates, every
 temporary column can be created, and the loading loop finds, for every field of `fields_with_deps`, its
 loader, its raw columns among `raw_dependencies`, and every halo column it reads or writes in the
 per-file table — for any combination, any order, with any group members present or absent. -/
-theorem no_request_dependent_failure (S : Spec) (O : ValOps V)
+theorem no_request_dependent_failure_partial (S : Spec) (O : ValOps V)
     (hg : groupOK S = true) (hsg : selfInGroup S = true) (hdd : depsDeclared S = true)
     (cols0 : List (String × Dt))
     (hvalid : ∀ f ∈ cols0.map (·.1), resolvesS S (S.loaders.length + 1) f = true) :
@@ -912,7 +924,7 @@ example :
   decide +kernel
 
 /-- the hypotheses of the theorems hold for the tables generated from the current source, and the request
-`['sigmavMid_com', 'N']` satisfies the validity hypothesis of `no_request_dependent_failure` -/
+`['sigmavMid_com', 'N']` satisfies the validity hypothesis of `no_request_dependent_failure_partial` -/
 example : groupOK Spec.generated = true ∧ dtypesOK Spec.generated = true ∧
     selfInGroup Spec.generated = true ∧ depsDeclared Spec.generated = true ∧
     (∀ f ∈ ["sigmavMid_com", "N"], resolvesS Spec.generated (Spec.generated.loaders.length + 1) f = true) := by
